@@ -284,11 +284,14 @@ Fixpoint elect_loop (cs : constr) (wanted : N) (pool : list node) (idxs : list N
 
 Definition min_pool (cs : constr) : N := match c_min cs with Some m => m | None => 0 end.
 
-(* one role; [idxs] is rng.Perm(len pool).  None = no committee. *)
+(* one role; [tbl] maps a pool length k to the index list rng.Perm(k) that
+   the role's RNG yields (the RNG depends only on entropy, runtime and role).
+   None = no committee. *)
 Definition elect_role (p : params) (ents : list entity) (vents : list N) (epoch : N)
-  (rt : runtime) (cs : constr) (wanted : N) (cnodes : list node) (idxs : list N)
+  (rt : runtime) (cs : constr) (wanted : N) (cnodes : list node) (tbl : list (list N))
   : option (list node) :=
   let pool := role_pool p ents vents epoch rt cs cnodes in
+  let idxs := nth (length pool) tbl [] in
   if len pool <? min_pool cs then None
   else if len pool <? wanted then None
   else match elect_loop cs wanted pool idxs [] [] with
@@ -302,10 +305,10 @@ Definition committee := list (N * N).   (* (scheduler role, node id), workers fi
 
 (* electCommittee / electCommitteeMembers for KindComputeExecutor.
    None = no committee (dropped / never stored). *)
-Definition elect_committee (p : params) (ents : list entity) (vents : list N) (epoch : N)
-  (rt : runtime) (cnodes : list node) (idx_w idx_b : list N) : option committee :=
+Definition elect_committee (fv261 : bool) (p : params) (ents : list entity) (vents : list N) (epoch : N)
+  (rt : runtime) (cnodes : list node) (idx_w idx_b : list (list N)) : option committee :=
   if r_suspended rt then None
-  else if negb (r_compute rt) then None
+  else if fv261 && negb (r_compute rt) then None   (* shuffle.go:139-148, kind is always executor *)
   else if r_gsize rt =? 0 then None
   else match elect_role p ents vents epoch rt (r_cw rt) (r_gsize rt) cnodes idx_w with
        | None => None
@@ -325,37 +328,51 @@ Record epoch_in := mkIn {
   i_epoch : N;
   i_nodes : list node;
   i_rts : list runtime;
-  i_perm_e : list N;                       (* entity tie-break shuffle *)
-  i_perm_n : list N;                       (* validator node shuffle *)
-  i_perm_c : list (list N * list N);       (* per runtime: worker / backup index lists *)
-  i_current : pmap                         (* validator set held by the consensus engine *)
+  i_perm_e : list (list N);                (* entity tie-break shuffle, by number of entities *)
+  i_perm_n : list (list N);                (* validator node shuffle, by number of candidate nodes *)
+  i_perm_c : list (list (list N) * list (list N));  (* per runtime: worker / backup index lists by pool size *)
+  i_current : pmap;                        (* validator set held by the consensus engine *)
+  i_fv261 : bool                           (* consensus feature version >= 26.1 *)
 }.
 
 Inductive epoch_out :=
 | EOk (vals : vmap) (updates : list (N * N)) (comms : list (N * option committee))
 | EErr (code : N).   (* 1 power, 2 none elected, 3 insufficient *)
 
-Fixpoint elect_committees (p : params) (ents : list entity) (vents : list N) (epoch : N)
-  (cnodes : list node) (rts : list runtime) (perms : list (list N * list N))
+Fixpoint elect_committees (fv261 : bool) (p : params) (ents : list entity) (vents : list N) (epoch : N)
+  (cnodes : list node) (rts : list runtime) (perms : list (list (list N) * list (list N)))
   : list (N * option committee) :=
   match rts with
   | [] => []
   | rt :: r =>
       let pc := match perms with pc :: _ => pc | [] => ([], []) end in
-      (r_id rt, elect_committee p ents vents epoch rt cnodes (fst pc) (snd pc))
-        :: elect_committees p ents vents epoch cnodes r (tl perms)
+      (r_id rt, elect_committee fv261 p ents vents epoch rt cnodes (fst pc) (snd pc))
+        :: elect_committees fv261 p ents vents epoch cnodes r (tl perms)
   end.
 
+(* the shuffles are selected by the length of the list being shuffled *)
+Definition elect_validators_t (p : params) (ents : list entity) (epoch : N) (nodes : list node)
+  (tbl_e tbl_n : list (list N)) : vres :=
+  let cands := vcands p ents epoch nodes in
+  elect_validators p ents epoch nodes
+    (nth (length (usort (map n_ent cands))) tbl_e [])
+    (nth (length cands) tbl_n []).
+
+(* The registry and the staking ledger are key-value maps: the election sees
+   the nodes ordered by ID and the accounts by address whatever the order in
+   which they were written. *)
 Definition run_epoch (i : epoch_in) : epoch_out :=
-  match elect_validators (i_params i) (i_ents i) (i_epoch i) (i_nodes i) (i_perm_e i) (i_perm_n i) with
+  let nodes := sort_by n_id (i_nodes i) in
+  let ents := sort_by e_addr (i_ents i) in
+  match elect_validators_t (i_params i) ents (i_epoch i) nodes (i_perm_e i) (i_perm_n i) with
   | VErrPower => EErr 1
   | VErrNone => EErr 2
   | VErrInsufficient => EErr 3
   | VOk vals vents =>
       EOk vals
           (sort_by fst (diff_validators (i_current i) (powers_of vals)))
-          (elect_committees (i_params i) (i_ents i) vents (i_epoch i)
-             (live_nodes (i_epoch i) (i_nodes i)) (i_rts i) (i_perm_c i))
+          (elect_committees (i_fv261 i) (i_params i) ents vents (i_epoch i)
+             (live_nodes (i_epoch i) nodes) (i_rts i) (i_perm_c i))
   end.
 
 (* ---------- comparison of outputs (for the correspondence files) ---------- *)
